@@ -1000,22 +1000,13 @@ def IR.bodiesA (ir : IR) (n : Nat) : P Unit :=
 id order.  A detached future task that was never polled (continuation still `Initialized`) is
 dropped as a plain closure, outside any unwinding; it still owns what `fspawn` moved into its
 async block, and dropping a channel endpoint there calls `ExecutionState::should_stop()`, whose
-`assert_ne!(current_task, Finished)` fails (execution.rs:760) — the execution that had ended
-normally is reported as a panic. (A future that was polled at least once is force-unwound:
+`assert_ne!(current_task, Finished)` failed (execution.rs:760) in the pinned tree — the execution that had ended
+normally was reported as a panic (finding F28). (A future that was polled at least once is force-unwound:
 `std::thread::panicking()` holds and `should_stop()` returns before the assertion.) -/
-def IR.finalOutcome (_ir : IR) (o : Outcome) (k : Kernel) (h : Heap) : Outcome :=
-  match o with
-  | .ok =>
-    let bad := k.indexed.find? fun p =>
-      !p.2.finished && (match h.fut.joins.zipIdx.find? (·.1.tid == some p.1) with
-        | some (j, b) =>
-          let l := (h.locals[b]?).getD {}
-          !j.started && !(l.tx.isEmpty && l.rx.isEmpty)
-        | none => false)
-    match bad with
-    | some p => .panic p.1 "assertion `left != right` failed"
-    | none => .ok
-  | o => o
+def IR.finalOutcome (_ir : IR) (o : Outcome) (_k : Kernel) (_h : Heap) : Outcome :=
+  -- F28 repaired in /repo: `should_stop()` answers `true` for a `Finished` execution instead of asserting, so the
+  -- endpoint drops of such a task are skipped like those of every other task dropped by `cleanup()`
+  o
 
 def IR.program (ir : IR) : Program :=
   { U := Heap, init := ir.initHeap, bodies := ir.bodiesA, unwind := ir.unwind }
